@@ -967,19 +967,13 @@ Proof.
       rewrite <- Hv. unfold chain_vals. cbn. reflexivity.
 Qed.
 
-(* every oversize block is returned to the upstream it was obtained from: histories without move construction *)
-Inductive reach_nm : st -> Prop :=
-| rnm_init : reach_nm init
-| rnm_step : forall s o, reach_nm s -> op_ok P s o -> o <> MoveCtor -> reach_nm (fst (fst (step P s o))).
-
-Lemma reach_nm_reach : forall s, reach_nm s -> reach P s.
-Proof. induction 1; [constructor|constructor; assumption]. Qed.
-
-Lemma reach_nm_tag : forall s, reach_nm s -> up s = 1 /\ Forall (fun e => fst (fst (fst e)) = 1) (gups s).
+(* every oversize block is returned to the upstream it was obtained from - all histories, move included
+   (move construction carries _upstream over: Gen.move_swaps_upstream) *)
+Lemma reach_tag : forall s, reach P s -> up s = 1 /\ Forall (fun e => fst (fst (fst e)) = 1) (gups s).
 Proof.
-  induction 1 as [|s o R [IH1 IH2] Hok Hn]; [cbn; auto|].
+  induction 1 as [|s o R [IH1 IH2] Hok]; [cbn; auto|].
   destruct (step P s o) as [[s' r] e] eqn:E. cbn.
-  destruct o as [b a orc|ptr fn orc|ptr| | |]; cbn in E; try congruence.
+  destruct o as [b a orc|ptr fn orc|ptr| | |]; cbn in E.
   - unfold do_alloc in E. destruct (alloc_core P s b a orc) as [[s1 r1] e1] eqn:E1.
     injection E as Hs Hr He; subst s'. destruct (core_ghost _ _ _ _ _ _ _ E1) as (_ & H2 & H3 & H4). cbn.
     rewrite H3, H2. split; [assumption|]. apply Forall_app. split; [|assumption].
@@ -994,12 +988,13 @@ Proof.
   - unfold do_release in E. destruct (match parrs s with [] => _ | _ => _ end).
     injection E as Hs Hr He; subst s'. cbn. auto.
   - injection E as Hs Hr He; subst s'. auto.
+  - injection E as Hs Hr He; subst s'. cbn. auto.
 Qed.
 
-Theorem mr_release_right_upstream : forall s, reach_nm s ->
+Theorem mr_release_right_upstream : forall s, reach P s ->
   Forall (fun e => fst (fst (fst e)) = up s) (gups s).
 Proof.
-  intros s R. destruct (reach_nm_tag _ R) as [H1 H2]. rewrite H1. exact H2.
+  intros s R. destruct (reach_tag _ R) as [H1 H2]. rewrite H1. exact H2.
 Qed.
 End Main.
 
@@ -1115,7 +1110,7 @@ Proof.
   apply Forall_forall. intros x Hx. apply disj_sym. eapply disj_inside_l; [exact Hi|]. apply Hd; assumption.
 Qed.
 
-(* ---------------------------------------------------------------- move construction loses the upstream *)
+(* ---------------------------------------------------------------- histories as data (non-vacuity witnesses) *)
 Fixpoint ops_ok (P : Z) (s : st) (ops : list op) : Prop :=
   match ops with [] => True | o :: r => op_ok P s o /\ ops_ok P (fst (fst (step P s o))) r end.
 
@@ -1127,10 +1122,7 @@ Proof.
   destruct (run P s1 r) as [s2 outs]. exact IH.
 Qed.
 
-Definition trace (P : Z) (ops : list op) : list ev := concat (map snd (snd (run P init ops))).
-
 Definition witness_oracle : oracle := {| o1 := 4096; o2 := 8192; ou := 16384 |}.
-Definition witness_ops : list op := [Alloc 129 8 witness_oracle; MoveCtor; Release].
 
 Lemma witness_oracle_ok : forall b a, pow2 a -> a <= 16384 -> 0 <= b < 2 ^ 40 -> oracle_ok 128 init b a witness_oracle.
 Proof.
@@ -1152,29 +1144,19 @@ Proof.
   pose proof (rup_bounds b (over_align a) Hp ltac:(lia)). unfold over_align in *. lia.
 Qed.
 
-Theorem mr_move_ctor_refuted :
-  ops_ok 128 init witness_ops /\
-  exists p b a, In (EUpAlloc 1 p b a) (trace 128 witness_ops) /\ In (EUpFree 0 p b a) (trace 128 witness_ops).
-Proof.
-  split.
-  - cbn. split; [|auto]. split; [lia|]. split; [apply pow2_8|].
-    apply witness_oracle_ok; [apply pow2_8|lia|lia].
-  - exists 16384, 504, 8. vm_compute. tauto.
-Qed.
-
 (* after release the resource is in its initial state again (accounting zero, nothing held): every theorem
    above applies to the following operations *)
 Theorem mr_release_init : forall P, (exists k, 7 <= k <= 32 /\ P = 2 ^ k) ->
-  forall s, reach_nm P s -> fst (fst (step P s Release)) = init.
+  forall s, reach P s -> fst (fst (step P s Release)) = init.
 Proof.
-  intros P Pok s R. destruct (mr_release_exact P Pok s (reach_nm_reach P s R)) as (bt & H1 & _).
-  rewrite H1. cbn. unfold reset. destruct (reach_nm_tag P s R) as [-> _]. reflexivity.
+  intros P Pok s R. destruct (mr_release_exact P Pok s R) as (bt & H1 & _).
+  rewrite H1. cbn. unfold reset. destruct (reach_tag P s R) as [-> _]. reflexivity.
 Qed.
 
-Lemma witness_reach : exists s, reach 128 s /\ length (blocks s) = 1%nat /\ length (gups s) = 1%nat.
+Lemma witness_reach : exists s, reach 128 s /\ length (blocks s) = 1%nat /\ length (gups s) = 1%nat /\ up s = 1.
 Proof.
-  exists (fst (run 128 init [Alloc 129 8 witness_oracle])). split.
-  - apply ops_ok_reach; [constructor|]. cbn. split; [|exact I]. split; [lia|]. split; [apply pow2_8|].
+  exists (fst (run 128 init [Alloc 129 8 witness_oracle; MoveCtor])). split.
+  - apply ops_ok_reach; [constructor|]. cbn. split; [|auto]. split; [lia|]. split; [apply pow2_8|].
     apply witness_oracle_ok; [apply pow2_8|lia|lia].
   - vm_compute. auto.
 Qed.
